@@ -22,6 +22,7 @@ type c27Seg struct {
 	Path       string `json:"path"`
 	DurationNs int64  `json:"duration_ns"`
 	Complete   bool   `json:"complete"`
+	Rewrite    []c27RW `json:"rewrite"`
 }
 
 type c27Rec struct {
@@ -267,6 +268,13 @@ func TestVerifC27(t *testing.T) {
 				map[string]any{"case": "mux-crash", "segment": si.seg.Path[len(dir):], "j": j, "z": z, "where": where, "observed": oc,
 					"panic": r.panicked, "err": fmt.Sprint(err2), "calls": calls},
 				"mux-crash:"+where+":"+oc, calls > 0)
+		}
+	}
+
+	// the duration rewrite at close, cut after every one of its Write calls (zz_verif_c27_torn_test.go)
+	for _, s := range segs {
+		if s.seg.Complete {
+			c27Torn(t, out, work, dir, s.rec, s.seg, s.l)
 		}
 	}
 
